@@ -347,3 +347,90 @@ def rule_stereo_cache_set(ck, repo):
     calls = [n for n in ast.walk(fs.node) if isinstance(n, ast.Call) and src(n.func) == 'self.flush_stereo_cache']
     ck.decide(len(calls) >= 2, R, 'fix_stereo:flushes', len(calls), 'fix_stereo no longer drops the stereo caches after clearing the labels and after every restore round',
               file=fs.file, line=fs.lineno, func=fs.qualname)
+
+
+# ---- definitional distinctness predicates of __chiral_centers -------------------------------------------------------------------------------
+def _neq_pairs(test):
+    """conjunction of `morgan[a] != morgan[b]` (b possibly morgan.get(b, 0)) -> list of frozenset({a, b}); None when not such a conjunction"""
+    out = []
+    for c in conjuncts(test):
+        if not (isinstance(c, ast.Compare) and len(c.ops) == 1 and isinstance(c.ops[0], ast.NotEq)):
+            return None
+        ops = []
+        for side in (c.left, c.comparators[0]):
+            if isinstance(side, ast.Subscript) and isinstance(side.value, ast.Name) and isinstance(side.slice, ast.Name):
+                ops.append(side.slice.id)
+            elif isinstance(side, ast.Call) and isinstance(side.func, ast.Attribute) and side.func.attr == 'get' and side.args and isinstance(side.args[0], ast.Name):
+                ops.append(side.args[0].id)
+            else:
+                return None
+        out.append(frozenset(ops))
+    return out
+
+
+def rule_distinctness_predicates(ck, repo, R):
+    ck.rule(R, 'the predicates that decide whether a unit is a stereocentre demand distinguishable substituents at BOTH ends: a ring-linker (spiro) tetrahedron '
+               'needs distinct neighbours in each of its two rings, a cumulene needs distinct substituents on each terminal, a plain tetrahedron needs all '
+               'neighbours distinct. A disjunction keeps labels on centres with one symmetric side (two spellings of one molecule compare unequal)')
+    ms = repo.cls('chython.algorithms.stereo:MoleculeStereo')
+    f = None
+    for name, fs in ms.methods.items():
+        if name.endswith('__chiral_centers'):
+            f = fs[0]
+    ck.require(f is not None, '__chiral_centers not found')
+    # spiro: generator over self.rings_linker_tetrahedrons.items() with a 4-tuple target
+    gens = [g for n in ast.walk(f.node) if isinstance(n, (ast.GeneratorExp, ast.SetComp, ast.ListComp)) for g in n.generators
+            if 'rings_linker_tetrahedrons' in src(g.iter)]
+    ck.require(len(gens) == 1 and len(gens[0].ifs) >= 1, '__chiral_centers: comprehension over rings_linker_tetrahedrons not found')
+    g = gens[0]
+    tg = [e.id for e in ast.walk(g.target) if isinstance(e, ast.Name)]
+    ck.require(len(tg) == 5, f'rings_linker_tetrahedrons target has {len(tg)} names, expected centre + 4 neighbours')
+    want = [frozenset(tg[1:3]), frozenset(tg[3:5])]
+    test = g.ifs[0] if len(g.ifs) == 1 else ast.BoolOp(op=ast.And(), values=list(g.ifs))
+    got = _neq_pairs(test)
+    ck.decide(got is not None and sorted(map(sorted, got)) == sorted(map(sorted, want)), R, 'ring-linker', [sorted(x) for x in want],
+              f'ring-linker tetrahedron is taken as chiral under `{src(test)}`; required: both ring pairs distinct ({" and ".join("!=".join(sorted(x)) for x in want)})',
+              file=f.file, line=test.lineno if hasattr(test, 'lineno') else f.lineno, func='MoleculeStereo.__chiral_centers', construct=src(test))
+    # cumulenes: for path, (n1, m1, n2, m2) in self.stereogenic_cumulenes.items(): if <test>:
+    loops = [n for n in ast.walk(f.node) if isinstance(n, ast.For) and 'stereogenic_cumulenes' in src(n.iter)]
+    ck.require(len(loops) == 1 and isinstance(loops[0].body[0], ast.If), '__chiral_centers: loop over stereogenic_cumulenes not found')
+    lp = loops[0]
+    tg = [e.id for e in ast.walk(lp.target) if isinstance(e, ast.Name)]
+    ck.require(len(tg) == 5, 'stereogenic_cumulenes target: expected path + 4 neighbours')
+    # env order is (n1, m1, n2, m2): n* belong to one terminal, m* to the other
+    want = [frozenset((tg[1], tg[3])), frozenset((tg[2], tg[4]))]
+    test = lp.body[0].test
+    got = _neq_pairs(test)
+    ck.decide(got is not None and sorted(map(sorted, got)) == sorted(map(sorted, want)), R, 'cumulene', [sorted(x) for x in want],
+              f'cumulene is taken as chiral under `{src(test)}`; required: both terminals have distinct substituents', file=f.file, line=test.lineno,
+              func='MoleculeStereo.__chiral_centers', construct=src(test))
+    # sibling sites: the same both-terminals predicate guards the pseudo-centre logic of _chiral_morgan (cis/trans and allene groups)
+    sib = 0
+    for name, fs in ms.methods.items():
+        for g_ in fs:
+            for n in ast.walk(g_.node):
+                if not isinstance(n, ast.If) or n is lp.body[0]:
+                    continue
+                t_ = n.test
+                leaves = t_.values if isinstance(t_, ast.BoolOp) else [t_]
+                if len(leaves) != 2 or not all(isinstance(c, ast.Compare) and len(c.ops) == 1 and isinstance(c.ops[0], ast.NotEq) and
+                                               isinstance(c.comparators[0], ast.Call) and isinstance(c.comparators[0].func, ast.Attribute) and
+                                               c.comparators[0].func.attr == 'get' and src(c.comparators[0].func.value) == 'morgan' for c in leaves):
+                    continue
+                sib += 1
+                got_ = _neq_pairs(t_)
+                ck.decide(got_ is not None and sorted(map(sorted, got_)) == [['n1', 'n2'], ['m1', 'm2']] or
+                          got_ is not None and sorted(map(sorted, got_)) == sorted([['n1', 'n2'], ['m1', 'm2']]), R, f'sibling:{g_.qualname}:{sib}', src(t_),
+                          f'{g_.qualname}: the both-terminals predicate is written `{src(t_)}` here but as a conjunction over (n1, n2) and (m1, m2) in __chiral_centers',
+                          file=g_.file, line=t_.lineno, func=g_.qualname, construct=src(t_))
+    ck.count(f'{R}: sibling predicate sites', sib)
+    # plain tetrahedron
+    comps = [n for n in ast.walk(f.node) if isinstance(n, ast.SetComp) and 'tetrahedrons.items()' in src(n.generators[0].iter)]
+    ck.require(len(comps) == 1 and len(comps[0].generators[0].ifs) == 1, '__chiral_centers: tetrahedron comprehension not found')
+    t = comps[0].generators[0].ifs[0]
+    env = [e.id for e in ast.walk(comps[0].generators[0].target) if isinstance(e, ast.Name)][-1]
+    norm = src(t).replace(' ', '')
+    ok = norm in (f'len({{morgan[x]forxin{env}}})==len({env})', f'len({env})==len({{morgan[x]forxin{env}}})', f'len(set(morgan[x]forxin{env}))==len({env})')
+    ck.decide(ok, R, 'tetrahedron', src(t), f'tetrahedron is taken as chiral under `{src(t)}`; required: all neighbours have distinct ranks (len of the rank set == len of the environment)',
+              file=f.file, line=t.lineno, func='MoleculeStereo.__chiral_centers', construct=src(t))
+    ck.floor(R, 5)
